@@ -475,3 +475,117 @@ func c06SiblingLeaves(x *X) {
 	x.Outcome(tree.Hash64(hx + "\x00" + hy))
 	x.Sample(fmt.Sprintf("%q | %q", xs, ys))
 }
+
+// ---- code spans (spec 6.1) ---------------------------------------------------------------
+
+var spCodeSpan = spaces.Space{Name: "X-codespan", Doc: "backtick strings of length 1 and 2 (adjacent tokens make longer ones), text, spaces, line endings",
+	Tokens: []string{"`", "``", "a", " ", "\n"}, Prefix: "x", Suffix: "x\n", Ambiguous: true}
+
+func init() { spaces.All = append(spaces.All, spCodeSpan) }
+
+// refCodeSpans: spec 6.1 read literally. A backtick string is a maximal run of
+// backticks; a code span begins with a backtick string and ends with the next
+// backtick string of equal length; a backtick string without a partner is
+// literal text. Returns the spans and the contents (line endings, with the
+// indentation of the following paragraph line, become single spaces; one space
+// is stripped from both ends when both are there and the content is not all spaces).
+func refCodeSpans(s string) (spans [][2]int, contents []string) {
+	type run struct{ i, j int }
+	var runs []run
+	for i := 0; i < len(s); {
+		if s[i] != '`' {
+			i++
+			continue
+		}
+		j := i
+		for j < len(s) && s[j] == '`' {
+			j++
+		}
+		runs = append(runs, run{i, j})
+		i = j
+	}
+	for a := 0; a < len(runs); {
+		n := runs[a].j - runs[a].i
+		b := a + 1
+		for b < len(runs) && runs[b].j-runs[b].i != n {
+			b++
+		}
+		if b == len(runs) {
+			a++
+			continue
+		}
+		inner := s[runs[a].j:runs[b].i]
+		var sb strings.Builder
+		for i := 0; i < len(inner); i++ {
+			if inner[i] == '\n' || inner[i] == '\r' {
+				if inner[i] == '\r' && i+1 < len(inner) && inner[i+1] == '\n' {
+					i++
+				}
+				// trailing white space of the line stays; the next line's indentation goes
+				for i+1 < len(inner) && (inner[i+1] == ' ' || inner[i+1] == '\t') {
+					i++
+				}
+				sb.WriteByte(' ')
+				continue
+			}
+			sb.WriteByte(inner[i])
+		}
+		c := sb.String()
+		if len(c) >= 2 && c[0] == ' ' && c[len(c)-1] == ' ' && strings.Trim(c, " ") != "" {
+			c = c[1 : len(c)-1]
+		}
+		spans = append(spans, [2]int{runs[a].i, runs[b].j})
+		contents = append(contents, c)
+		a = b + 1
+	}
+	return spans, contents
+}
+
+func c06CodeSpanDriver(x *X, in []byte) {
+	doc := string(in)
+	for i, l := range strings.Split(strings.TrimSuffix(doc, "\n"), "\n") {
+		if strings.TrimSpace(l) == "" {
+			x.Count("codespan_skipped_blank_line")
+			return
+		}
+		t := strings.TrimLeft(l, " ")
+		if _, n, _ := ref.CodeFence(t); i > 0 && n > 0 && len(l)-len(t) <= 3 {
+			x.Count("codespan_skipped_fence_line")
+			return
+		}
+	}
+	for _, v := range append([][]byte{in}, eolVariants(in)...) {
+		d := string(v)
+		want, wantC := refCodeSpans(d)
+		blocks, _ := cm.Parse(clone(v))
+		x.Validated()
+		if len(blocks) != 1 || blocks[0].Kind() != cm.ParagraphKind {
+			x.Fail("codespan-not-one-paragraph", "code-span-grammar", v, "%q has no blank line and no fence line, but parses to %d root blocks (first kind %v)", d, len(blocks), kindOfFirst(blocks))
+			return
+		}
+		rb := blocks[0]
+		var got [][2]int
+		var gotC []string
+		for i := 0; i < rb.ChildCount(); i++ {
+			c := rb.Child(i).Inline()
+			if c == nil || c.Kind() != cm.CodeSpanKind {
+				continue
+			}
+			got = append(got, [2]int{int(rb.StartOffset) + c.Span().Start, int(rb.StartOffset) + c.Span().End})
+			var sb strings.Builder
+			for k := 0; k < c.ChildCount(); k++ {
+				sb.WriteString(c.Child(k).Text(rb.Source))
+			}
+			gotC = append(gotC, sb.String())
+		}
+		if fmt.Sprint(got) != fmt.Sprint(want) || fmt.Sprintf("%q", gotC) != fmt.Sprintf("%q", wantC) {
+			x.Fail("code-spans-differ", "code-span-grammar", v, "%q: the tree has code spans at %v with contents %q; spec 6.1 gives %v with contents %q", d, got, gotC, want, wantC)
+			return
+		}
+		if len(want) > 0 {
+			x.Nontrivial()
+		}
+	}
+	x.Outcome(tree.HashBytes(in))
+	x.Sample(fmt.Sprintf("%q", doc))
+}
